@@ -57,11 +57,18 @@ func (np *nameProv) ok(v ssa.Value, use ssa.Instruction, depth int) (bool, strin
 			if !(ok && isNil && strings.HasSuffix(calleeName(&cl.Call), "telemetrygodev.validate")) {
 				return false
 			}
-			if strip(argsOf(cl)[0]) == strip(b) || strip(argsOf(cl)[0]) == refine(strip(b), factsAt(use)) {
+			if strip(argsOf(cl)[0]) == strip(b) || strip(argsOf(cl)[0]) == refine(strip(b), factsAt(use)) || strip(argsOf(cl)[0]) == strip(resolveLoad(strip(b))) {
 				return true // (a report pointer that came back through a result variable is resolved where it is used)
 			}
 			// … or b holds a by-value copy of the report that was validated
-			if ba, isA := strip(b).(*ssa.Alloc); isA {
+			bb := strip(b)
+			if ld, isLd := bb.(*ssa.UnOp); isLd && ld.Op == token.MUL {
+				bb = ld.X // the whole struct value read from a variable: the variable
+			}
+			if ba, isA := bb.(*ssa.Alloc); isA {
+				if strip(argsOf(cl)[0]) == ssa.Value(ba) {
+					return true
+				}
 				for _, o := range copyOrigins(ba, factsAt(use)) {
 					if strip(argsOf(cl)[0]) == ssa.Value(o) {
 						return true
@@ -662,6 +669,17 @@ func c18BucketWiring(c *Ctx, gd *Module, rule string) {
 			n++
 			d := describe(lit[fld])
 			okF := strings.Contains(d, "storage.NewBucket(") && strings.HasSuffix(d, "param:cfg."+cfgFld+")#0")
+			if !okF {
+				// through a helper that opens the named buckets in order (mapsum.go): element i is NewBucket(…, i-th name)
+				if el, re, arg, isM := mappedElement(lit[fld]); isM {
+					if ex, isEx := strip(el).(*ssa.Extract); isEx && ex.Index == 0 {
+						if cl, isCall := ex.Tuple.(*ssa.Call); isCall && strings.HasSuffix(calleeName(&cl.Call), "storage.NewBucket") && len(cl.Call.Args) == 3 && cl.Call.Args[2] == re {
+							okF = describe(arg) == "param:cfg."+cfgFld
+							d = "NewBucket(…, " + describe(arg) + ") through " + calleeName(&cl.Call)
+						}
+					}
+				}
+			}
 			r.Check(rule, "NewAPI/API."+fld+" is the bucket named by cfg."+cfgFld, gd.Pos(ex.ret.Pos()), okF, "got "+shortDesc(d))
 		}
 	}
